@@ -95,10 +95,33 @@ impl G<'_> {
         }
     }
 
+    fn closed_int(&mut self, v: i64, depth: usize) -> H {
+        let saved = self.n.take();
+        let h = self.int(v, depth);
+        self.n = saved;
+        h
+    }
+
     // a boolean expression with the given truth value; boundary-equal operands favoured
     fn cond(&mut self, truth: bool, depth: usize) -> H {
         if self.r.chance(1, 6) {
             return if truth { H::True } else { H::False };
+        }
+        if let Some((n, nv)) = self.n.clone() {
+            // the parameter itself against a constant at or next to the value it will take (the
+            // comparison is stuck where the two types meet and decided once n is instantiated)
+            if self.r.chance(1, 2) {
+                for _ in 0..40 {
+                    let op = CMP[self.r.usize(5)];
+                    let k = nv + [0, 0, 0, -1, 1][self.r.usize(5)];
+                    let flip = self.r.chance(1, 3);
+                    let (a, b) = if flip { (k, nv) } else { (nv, k) };
+                    if holds(op, a, b) == truth {
+                        let kk = if depth > 0 && self.r.chance(1, 3) { self.closed_int(k, 1) } else { lit(k) };
+                        return if flip { H::Bin(op, hb(kk), hb(H::Var(n))) } else { H::Bin(op, hb(H::Var(n)), hb(kk)) };
+                    }
+                }
+            }
         }
         for _ in 0..40 {
             let op = CMP[self.r.usize(5)];
@@ -233,9 +256,17 @@ pub fn gen_coercion(r: &mut Rng, wrap_other: bool) -> Coercion {
     // TB: TA after one or two edits (sometimes none: the identity coercion through a copy)
     let mut tb = ta.clone();
     let edits = [1, 1, 1, 2, 2, 0][g.r.usize(6)];
+    const TYPE_EDITS: [&str; 20] = [
+        "operator-swap", "operator-swap", "operator-swap", "operator-swap", "literal-nudge", "literal-nudge", "literal-nudge", "comparison-mirrored", "comparison-mirrored", "branch-swap", "branch-swap",
+        "variable-for-variable", "variable-for-variable", "ground-type-swap", "group-insert-definition", "group-append-and-retarget", "group-append-and-retarget", "interpose-definition", "interpose-binder", "variable-for-atom",
+    ];
     for _ in 0..edits {
-        if let Some((x, _)) = crate::edit::edit(&tb, g.r) {
-            tb = x;
+        for _ in 0..4 {
+            let kind = TYPE_EDITS[g.r.usize(TYPE_EDITS.len())];
+            if let Some(x) = crate::edit::edit_with_kind(&tb, g.r, kind) {
+                tb = x;
+                break;
+            }
         }
     }
     let val = if is_int { lit(g.r.range(-3, 40)) } else if g.r.chance(1, 2) { H::True } else { H::False };
